@@ -85,7 +85,8 @@ func (t *TargetsMetadata) AddRule(ruleName string, authorizedPrincipalIDs, ruleP
 		return tuf.ErrInvalidThreshold
 	}
 
-	if len(authorizedPrincipalIDs) < threshold {
+	if set.NewSetFromItems(authorizedPrincipalIDs...).Len() < threshold {
+		// the same principal listed twice can only be counted once
 		return tuf.ErrCannotMeetThreshold
 	}
 
@@ -124,7 +125,8 @@ func (t *TargetsMetadata) UpdateRule(ruleName string, authorizedPrincipalIDs, ru
 		return tuf.ErrInvalidThreshold
 	}
 
-	if len(authorizedPrincipalIDs) < threshold {
+	if set.NewSetFromItems(authorizedPrincipalIDs...).Len() < threshold {
+		// the same principal listed twice can only be counted once
 		return tuf.ErrCannotMeetThreshold
 	}
 
